@@ -1,5 +1,6 @@
 import DoitModel.Proofs.DelayedWF
 import DoitModel.Proofs.C15Obey3
+import DoitModel.Proofs.C15Target
 import DoitModel.Model.DelayedSel
 /-! # C15 — delayed task creation happens once, after its trigger
 
@@ -11,9 +12,23 @@ of a transition system that is exactly the serial `Runner` when `inp.serial` and
 `MRunner`/`MThreadRunner` for every `-n` (any number of tasks in flight, `generator.send(None)` at any time, any
 completion order, any iteration order of `waiting_me`).
 
-`onceOK`, `afterOK` are the decidable statements; the driver evaluates the same functions on the implementation's
-trace (the monitor).  The hypotheses are decidable (`trigB`; `resolvesB`, `coversB` for the pinned variant) and
-evaluated on every generated case. -/
+`onceOK`, `afterOK`, `obeyOK` are the decidable statements; the driver evaluates the same functions on the
+implementation's trace (the monitor).  The hypotheses are decidable (`trigB`, `rxB`; `resolvesB`, `coversB` for the
+pinned variant) and evaluated on every generated case.
+
+What is proved of `created_obey` / `target` and what is left (wave 3):
+* `C15_created_obey` is the full `obeyOK` statement over the dependency table of the `Task` objects the nodes hold
+  (`nodeDeps`).  Over `TaskControl.tasks` (`dynDeps`) it is `C15_created_obey_table`, with the state hypothesis that
+  the entry of every started task is still the object its node holds.  The gap is real in the model and in doit:
+  `self.tasks[nt.name] = nt` has no guard, a creator may re-define a task that was already executed.  The invariant
+  that would discharge the hypothesis from a decidable input condition is "a node whose task has no loader holds
+  `tasks[name]`"; it is broken exactly by `insertNew` over the name of such a node, and excluding that needs (i) no
+  yielded name is a static non-placeholder task, (ii) the yields of different creators are disjoint — with a history
+  invariant "a table entry outside `tasks0` was yielded by an evaluated creator" —, (iii) a placeholder is not
+  `DelayedLoaded` before its own creator ran (`mustCreate` is also false when `tasks[to_load]` has no loader, so this
+  needs a `resolvesB`-like condition on `to_load`).  Not done.
+* `C15_target` is the structural core.  "Exactly the producer and its closure" (nothing else is started) and "the run
+  does start the producer" (liveness) are not model theorems; the monitor `targetOK` evaluates them. -/
 namespace DoitModel.C15
 open DoitModel.Delayed
 open DoitModel.Run (Name)
@@ -117,20 +132,35 @@ theorem C15_created_obey_table (inp : Input) (h : trigB inp = true) (s : Sys) (h
   rw [← obeyOK_congr (nodeDeps s) (dynDeps s) inp.noAct s.events hsame]
   exact C15_created_obey inp h s hr
 
-/-- a `_regex_target…` placeholder of the initial table still carries its loader and has the word as its file_dep -/
-def rxWF (inp : Input) : Prop :=
-  ∀ n td g, lookup0 inp.tasks0 n = some td → td.rx = some g → td.loader ≠ none ∧ inp.gtarget g ∈ td.fileDep
-
-/-- **target**, structural core (NOT proved; the observable statement is the monitor `targetOK` of the driver, evaluated
-    on every implementation trace): in a state that did not raise, a regex placeholder of word `x` that was reset
-    (its loader is `DelayedLoaded`) either has the task that owns target `x` among its task_deps — so the producer and
-    its closure are processed before it — or other loaders of its group are still to be tried; and `notFound x` is
-    raised only while nobody has registered `x`. -/
-def C15_target_full : Prop :=
-  ∀ (inp : Input), rxWF inp → ∀ (s : Sys), Reach inp s →
-    (∀ x, s.susp = .err (.notFound x) → s.targets x = none) ∧
+/-- **target**, structural core.  `rxB`: a task of the initial table that belongs to a regex group (a
+    `_regex_target…` placeholder, or the creator's own task selected through its `target_regex`) carries a loader and
+    has the command-line word among its file_deps — what `_filter_tasks` builds.  Regex matching is the oracle that
+    decided which groups exist.  In every reachable state, under every schedule and runner:
+    * `notFound x` is raised only while nobody has registered `x` as a target **and** the group of `x` is exhausted
+      (no remaining loader could still produce it);
+    * in a state that did not raise, a regex placeholder of word `x` that was reset (its loader is `DelayedLoaded`)
+      has the task that owns target `x` among its task_deps — so by `C15_created_obey` the producer (and, through the
+      producer's own node, its dependencies) is processed before it — or other loaders of its group are still to be
+      tried.
+    Not proved here: "exactly" (nothing outside the closure of the selection is started — the monitor `targetOK`
+    evaluates it on every implementation trace) and liveness (the run does reach the producer's `start`). -/
+theorem C15_target (inp : Input) (h : rxB inp = true) (s : Sys) (hr : Reach inp s) :
+    (∀ x, s.susp = .err (.notFound x) → s.targets x = none ∧ ∃ g, inp.gtarget g = x ∧ s.gtasks g = []) ∧
     ((∀ e, s.susp ≠ .err e) → ∀ n nd g, s.nodes n = some nd → nd.task.rx = some g → nd.task.loader = none →
-      (∃ o, s.targets (inp.gtarget g) = some o ∧ o ∈ nd.task.deps) ∨ s.gtasks g ≠ [])
+      (∃ o, s.targets (inp.gtarget g) = some o ∧ o ∈ nd.task.deps) ∨ s.gtasks g ≠ []) := by
+  have hi := tgt_reach (rxWF_of_bool h) hr
+  exact ⟨hi.nf, fun hne n nd g hn hg hl => ((hi.ok hne).node n nd g hn hg).2 hl⟩
+
+/-- target + created_obey: when a loaded regex placeholder of word `x` is handed to execution, the task that owns
+    target `x` has its good report earlier in the trace (or the group still had other loaders to try) -/
+theorem C15_target_producer_first (inp : Input) (h1 : trigB inp = true) (h2 : rxB inp = true) (s : Sys)
+    (hr : Reach inp s) (hne : ∀ e, s.susp ≠ .err e) (n : Name) (nd : Node) (g : GId) (hn : s.nodes n = some nd)
+    (hg : nd.task.rx = some g) (hl : nd.task.loader = none) (post pre : List Ev)
+    (hev : s.events = post ++ Ev.start n :: pre) :
+    (∃ o, s.targets (inp.gtarget g) = some o ∧ (Ev.success o ∈ pre ∨ Ev.skipUtd o ∈ pre)) ∨ s.gtasks g ≠ [] := by
+  rcases (C15_target inp h2 s hr).2 hne n nd g hn hg hl with ⟨o, ho, hod⟩ | h
+  · exact Or.inl ⟨o, ho, C15_created_start_after_deps inp h1 s hr n post pre hev o (by simpa [nodeDeps, hn] using hod)⟩
+  · exact Or.inr h
 
 /-! ### non-vacuity: a static trigger `0`; one creator with `creates=[1, 2]` (two loader objects, `executed = 0`) that
     yields task 1 and task 2 (which depends on 1); a static task 3 depending on both placeholders, selected.  The
@@ -175,6 +205,39 @@ example :
     (autoRun (exInput false) 200 (init (exInput false))).events.reverse =
       [.start 0, .success 0, .creator 0, .start 1, .success 1, .start 2, .success 2, .start 3, .success 3] := by
   decide
+/-! ### non-vacuity of the target rule: trigger `0`; task 1 = the creator's own placeholder; task 5 = the
+    `_regex_target…` placeholder of word 7 (loader copy 1 with basename 1, group 0 = {1}); selection `[5]`. -/
+
+def exRx (produce : Bool) : Input :=
+  { tasks0 := [(0, { act := true, oid := 0 }), (1, { deps := [0], loader := some 0, oid := 1 }),
+               (5, { deps := [0], loader := some 1, fileDep := [7], rx := some 0, isRx := true, oid := 5 })]
+    targets0 := []
+    creatorOf := fun _ => 0
+    execOf := fun _ => some 0
+    baseOf := fun l => if l = 1 then some 1 else none
+    gtarget := fun _ => 7
+    gtasks0 := fun _ => [1]
+    make := fun _ _ => if produce then [{ name := 1, targets := [7] }] else [{ name := 1 }]
+    sel := [5] }
+
+/-- the creator yields the producer of word 7: the placeholder is reset with the producer among its task_deps and
+    runs after it -/
+example :
+    rxB (exRx true) = true ∧ trigB (exRx true) = true ∧
+    (autoRun (exRx true) 200 (init (exRx true))).susp = .stopIter ∧
+    (autoRun (exRx true) 200 (init (exRx true))).events.reverse =
+      [.start 0, .success 0, .creator 0, .start 1, .success 1, .start 5, .success 5] ∧
+    (((autoRun (exRx true) 200 (init (exRx true))).nodes 5).map fun nd => (nd.task.deps, nd.task.loader, nd.task.rx)) =
+      some ([0, 1], none, some 0) := by
+  decide
+
+/-- nobody produces word 7 and the group is exhausted: `notFound 7` -/
+example :
+    rxB (exRx false) = true ∧
+    (autoRun (exRx false) 200 (init (exRx false))).susp = .err (.notFound 7) ∧
+    (autoRun (exRx false) 200 (init (exRx false))).events.reverse = [.start 0, .success 0, .creator 0] := by
+  decide
+
 /-! ### `_filter_tasks`: task 0 = trigger, task 1 = placeholder of a creator with a target_regex that matches word 3;
     word 2 = the sub-task name `1:x` (base 1).  Selection `1:x out_y`. -/
 
